@@ -83,7 +83,9 @@ func (e *ContainerEdits) Apply(spec *oci.Spec) error {
 	}
 
 	for _, d := range e.DeviceNodes {
-		dn := DeviceNode{d}
+		// fill in missing host information into a copy, not into the (cached) Spec
+		node := *d
+		dn := DeviceNode{&node}
 
 		err := dn.fillMissingInfo()
 		if err != nil {
@@ -105,7 +107,7 @@ func (e *ContainerEdits) Apply(spec *oci.Spec) error {
 		specgen.AddDevice(dev)
 
 		if dev.Type == "b" || dev.Type == "c" {
-			access := d.Permissions
+			access := node.Permissions
 			if access == "" {
 				access = "rwm"
 			}
